@@ -89,7 +89,36 @@ def _usebig(b):
     return usebig
 
 
-BODIES = {"leaf": _leaf, "mid": _mid, "top": _top, "fanout": _fanout, "idt": _idt, "boom": _boom, "rec": _rec, "guard": _guard,
+def _summ(b):
+    def summ(f):
+        CALLS["summ"] += 1
+        return len(f.read()) + 100 * b
+    return summ
+
+
+def _fmain(b):
+    def fmain(path):
+        CALLS["fmain"] += 1
+        from redun import File
+        return [T("summ")(File(path)), b]
+    return fmain
+
+
+def _vleaf(b):
+    def vleaf(x):
+        CALLS["vleaf"] += 1
+        return x + 5 + b
+    return vleaf
+
+
+def _vtop(b):
+    def vtop(x):
+        CALLS["vtop"] += 1
+        return T("vleaf")(x + b)
+    return vtop
+
+
+BODIES = {"summ": _summ, "fmain": _fmain, "vleaf": _vleaf, "vtop": _vtop, "leaf": _leaf, "mid": _mid, "top": _top, "fanout": _fanout, "idt": _idt, "boom": _boom, "rec": _rec, "guard": _guard,
           "big": _big, "usebig": _usebig}
 
 
